@@ -83,8 +83,13 @@ class Transform(Family):
     def gen(self, rng, n):
         out = []
         for i in range(n):
+            # strata are enumerated, not drawn: every combination of op x inplace x single/container x cache state occurs
+            op = ["translate", "rotate", "scale", "rotate"][i % 4]
+            inplace = (i // 4) % 2 == 1
+            is_multi = (i // 8) % 2 == 1
+            warm = (i // 16) % 2 == 1
+            neutral = i % 5 == 4          # zero vector / angle 0 / factor exactly 1 (int) or 1.0 (float)
             kind = rng.choice(["curve", "curve", "surface", "surface", "volume"])
-            is_multi = rng.random() < 0.5
             k = rng.randint(1, 3) if is_multi else 1
             dim = rng.choice([2, 3]) if kind == "curve" else 3
             shapes = [T.random_shape(rng, kind=kind, dim=dim, maxdeg={"curve": 4, "surface": 3, "volume": 2}[kind]) for _ in range(k)]
@@ -95,26 +100,26 @@ class Transform(Family):
                 for _ in range(2 if pd < 3 else 1):
                     ps.append(T.random_params(rng, s)[0])
                 params.append(ps)
-            op = rng.choice(["translate", "rotate", "rotate", "scale"])
-            c = {"shapes": shapes, "multi": is_multi, "op": op, "inplace": rng.random() < 0.5, "params": params,
-                 "warm": rng.random() < 0.5, "mal": "none"}
+            c = {"shapes": shapes, "multi": is_multi, "op": op, "inplace": inplace, "params": params,
+                 "warm": warm, "mal": "none", "neutral": neutral}
             if op == "translate":
-                c["vec"] = [rng.randint(-40, 40) / 8.0 for _ in range(dim)]
+                c["vec"] = [0.0] * dim if neutral else [rng.randint(-40, 40) / 8.0 for _ in range(dim)]
             elif op == "rotate":
-                c["angle"] = rng.choice(ANGLES)
+                c["angle"] = rng.choice([0.0, 0, 360.0]) if neutral else rng.choice(ANGLES)
                 c["axis"] = rng.randint(0, 2)
             else:
-                c["mult"] = rng.choice([2.0, 0.5, -1.5, 3, 0.25, 1.0, -2])
+                c["mult"] = rng.choice([1, 1.0]) if neutral else rng.choice([2.0, 0.5, -1.5, 3, 0.25, -2])
             r = rng.random()
-            if r < 0.04 and op == "translate":
-                c["mal"] = "vec-length"
-                c["vec"] = c["vec"] + [1.0] if rng.random() < 0.5 else c["vec"][:-1]
-            elif r < 0.08 and op == "translate":
-                c["mal"] = "vec-empty"
-                c["vec"] = []
-            elif r < 0.12 and op == "rotate" and dim == 3:
-                c["mal"] = "axis"
-                c["axis"] = 3
+            if not neutral:
+                if r < 0.06 and op == "translate":
+                    c["mal"] = "vec-length"
+                    c["vec"] = c["vec"] + [1.0] if rng.random() < 0.5 else c["vec"][:-1]
+                elif r < 0.12 and op == "translate":
+                    c["mal"] = "vec-empty"
+                    c["vec"] = []
+                elif r < 0.12 and op == "rotate" and dim == 3:
+                    c["mal"] = "axis"
+                    c["axis"] = 3
             out.append(c)
         return out
 
@@ -141,14 +146,15 @@ class Transform(Family):
                 if not T.kv_unchanged(o, s):
                     return {"skip": "knot vector altered by normalisation"}
             before = _snapshot(obj)
-            cev = None
+            ev_before = None
             if c["multi"]:
                 obj.sample_size = 3
                 if c["warm"]:
-                    cev = [list(p) for p in obj.evalpts]
+                    _ = obj.evalpts                      # the container cache and the caches of its elements are filled
+                    ev_before = [[list(p) for p in g.evalpts] for g in _elements(obj)]
             elif c["warm"]:
-                obj.sample_size = 3
-                _ = obj.evalpts
+                obj.sample_size = 2 if obj.pdimension == 3 else 3
+                ev_before = [[list(p) for p in obj.evalpts]]
             res = self._apply(c, obj)
             after = _snapshot(obj)
             r_el, o_el = _elements(res), _elements(obj)
@@ -159,6 +165,10 @@ class Transform(Family):
                                      "weights": list(g.weights) if g.rational else None, "kv": T.obj_kvs(g),
                                      "degree": list(g.degree) if g.pdimension > 1 else [g.degree],
                                      "eval": [T.eval_single(g, p) for p in ps]})
+            if c["warm"]:
+                out["evalpts_before"] = ev_before
+                out["evalpts_after"] = [[list(p) for p in g.evalpts] for g in r_el]
+                out["input_evalpts_after"] = [[list(p) for p in g.evalpts] for g in o_el]
             if c["multi"]:
                 # container-level evaluated points of the returned object (fresh expectation: its elements' own points)
                 try:
@@ -169,6 +179,11 @@ class Transform(Family):
                 for g in r_el:
                     exp += [list(p) for p in g.evalpts]
                 out["container_evalpts"] = {"got": got, "elements": exp}
+            if not c["inplace"] and not out["same"]:
+                # a later in-place edit of the result must not reach the input
+                dim_ = c["shapes"][0]["dim"]
+                operations.translate(res, [1.0] * dim_, inplace=True)
+                out["input_unchanged_after_edit"] = _snapshot(obj) == before
             return out
         return call(f)
 
@@ -271,6 +286,18 @@ class Transform(Family):
                 if not T.close_pt(T.fr_point(got), exp, 1e-9):
                     return "%s-evaluate: element %d at %s: evaluate_single of the result gives %s, map applied to the original point %s" % (
                         tag, k, p, got, [float(x) for x in exp])
+        if not c["inplace"] and o.get("input_unchanged_after_edit") is False:
+            return "%s-aliasing: an in-place edit of the returned object changed the input object" % tag
+        if c["warm"] and o.get("evalpts_before") is not None:
+            for k, (bef, aft, inp) in enumerate(zip(o["evalpts_before"], o["evalpts_after"], o["input_evalpts_after"])):
+                if len(bef) != len(aft):
+                    return "%s-evalpts: element %d has %d evaluated points before and %d after the operation" % (tag, k, len(bef), len(aft))
+                for x, y in zip(bef, aft):
+                    if not T.close_pt(T.fr_point(y), _map_exact(c, origin, x), 1e-9):
+                        return "%s-evalpts: evalpts of element %d were read before the operation; afterwards the result still reports %s where the map of the old point %s is %s" % (
+                            tag, k, y, x, [float(t) for t in _map_exact(c, origin, x)])
+                if not c["inplace"] and not all(T.close_pt(T.fr_point(a), T.fr_point(b), 1e-12) for a, b in zip(bef, inp)):
+                    return "%s-input-evalpts: inplace=False changed the evaluated points of the input (element %d)" % (tag, k)
         if c["multi"]:
             ce = o["container_evalpts"]
             if isinstance(ce["got"], str):
@@ -285,8 +312,9 @@ class Transform(Family):
 
     def stratum(self, c, out):
         s = c["shapes"][0]
-        return "%s/%s%d/%s/%s/%s" % (c["op"], s["kind"], s["dim"], "multi%d" % len(c["shapes"]) if c["multi"] else "single",
-                                      "inplace" if c["inplace"] else "copy", c["mal"] if c["mal"] != "none" else ("rat" if any(x["rational"] for x in c["shapes"]) else "poly"))
+        return "%s%s/%s%d/%s/%s/%s/%s" % (c["op"], "-neutral" if c.get("neutral") else "", s["kind"], s["dim"], "multi%d" % len(c["shapes"]) if c["multi"] else "single",
+                                         "inplace" if c["inplace"] else "copy", "warm" if c["warm"] else "cold",
+                                         c["mal"] if c["mal"] != "none" else ("rat" if any(x["rational"] for x in c["shapes"]) else "poly"))
 
 
 def families():
